@@ -33,14 +33,14 @@ RULE = ('every factory of the property (line, polygon, n_gon, circle p2C0/p4C1, 
         'every octant, non-unit, rational-norm (exact stream) and arbitrary floats; x-axes orthogonal to the normal; '
         'angles in [-2pi,2pi] incl. the span-count thresholds and +-2pi; both circle types; non-collinear triples '
         '(2D, 3D, mixed).  distinct = distinct protocol lines; non-trivial = the call does not raise.')
-REQUIRED_TAGS = ['normal-signed-zero', 'op=circle', 'op=ellipse', 'op=arc', 'op=three', 'op=ngon', 'op=line', 'op=polygon', 'op=square',
+REQUIRED_TAGS = ['args:same-list-object', 'args:reused-across-calls', 'args:tuple', 'args:ndarray', 'args:intarray', 'normal-signed-zero', 'op=circle', 'op=ellipse', 'op=arc', 'op=three', 'op=ngon', 'op=line', 'op=polygon', 'op=square',
                  'op=cube', 'op=disc', 'op=sphere', 'op=cylinder', 'op=torus', 'op=revolve', 'op=extrude',
                  'op=revolve_vol', 'op=extrude_vol', 'op=sphere_vol', 'op=torus_vol', 'op=cylinder_vol',
                  'op=local_x', 'op=flip', 'type=p4C1', 'type=p2C0', 'normal=-ez', 'normal=+ez', 'normal=axis',
                  'normal=nonunit', 'stream=exact', 'stream=float', 'spans=1', 'spans=2', 'spans=3', 'theta<0',
                  'theta=2pi', 'theta=threshold', 'raises']
 
-KNOWN_LABELS = ['signed-zero-normal-half-turn', 'center-within-1e-8-of-origin-ignored', 'three-point-arc-wrong-end', 'three-point-arc-small-radius-absolute-tolerance', 'three-point-arc-nan-half-turn', 'three-point-arc-half-turn-accuracy', 'arc-2pi-ignores-xaxis', 'near-ez-normal-misplaced',
+KNOWN_LABELS = ['argument-object-mutated', 'wrong-physical-dimension', 'signed-zero-normal-half-turn', 'center-within-1e-8-of-origin-ignored', 'three-point-arc-wrong-end', 'three-point-arc-small-radius-absolute-tolerance', 'three-point-arc-nan-half-turn', 'three-point-arc-half-turn-accuracy', 'arc-2pi-ignores-xaxis', 'near-ez-normal-misplaced',
                 'volume-revolve-negative-theta-reversed', 'cylinder-height-scaled-by-axis-norm']
 
 PI_F = F(math.pi)
@@ -492,6 +492,45 @@ def generate(rng, tier):
     S.append({'op': 'three', 'x': [[0, 0], [1, 1], [2, 2]], 'stream': 'float'})
     for s in S[-11:]:
         s['raises'] = True
+    # argument objects: the same Python list passed twice, a list reused across two calls, container types
+    for mode in ('same', 'reused'):
+        for _ in range(rep(6, 40)):
+            p2 = [gen.dyadic(rng, 0.25, 4), gen.dyadic(rng, 0.25, 4)]
+            S.append({'op': 'argobj', 'mode': mode, 'ctype': 'list', 'stream': 'exact',
+                      'base': {'op': 'square', 'size': list(p2) if mode == 'same' else [gen.dyadic(rng, 0.25, 4)],
+                               'scalar': mode == 'reused', 'll': list(p2), 'stream': 'exact'}})
+            p3 = [gen.dyadic(rng, 0.25, 4) for _ in range(3)]
+            S.append({'op': 'argobj', 'mode': mode, 'ctype': 'list', 'stream': 'exact',
+                      'base': {'op': 'cube', 'size': list(p3) if mode == 'same' else [gen.dyadic(rng, 0.25, 4)],
+                               'scalar': mode == 'reused', 'll': list(p3), 'stream': 'exact'}})
+        for _ in range(rep(4, 30)):
+            v = [0.0, 0.0, rng.choice([1.0, 2.0, 0.5, -1.0, -2.5])]
+            for base in ({'op': 'circle', 'r': gen_radius(rng), 'type': rng.choice(['p2C0', 'p4C1'])},
+                         {'op': 'cylinder', 'r': gen_radius(rng), 'h': 1.5}, {'op': 'disc', 'r': gen_radius(rng), 'type': 'radial'}):
+                b = dict(base)
+                b.update({'center': list(v), 'normal': list(v), 'xaxis': [1.0, 0.0, 0.0], 'nkind': 'ezscaled', 'stream': 'float'})
+                S.append({'op': 'argobj', 'mode': mode, 'ctype': 'list', 'stream': 'float', 'base': b})
+    for ctype in ('list', 'tuple', 'ndarray', 'intarray'):
+        for _ in range(rep(3, 20)):
+            ints = ctype == 'intarray'
+            val = (lambda lo, hi: float(rng.randint(int(lo) + 1, int(hi)))) if ints else (lambda lo, hi: gen.dyadic(rng, lo, hi))
+            S.append({'op': 'argobj', 'mode': 'types', 'ctype': ctype, 'stream': 'exact',
+                      'base': {'op': 'square', 'size': [val(0.25, 4), val(0.25, 4)], 'scalar': False,
+                               'll': [val(-4, 4) for _ in range(rng.choice([2, 3]))], 'stream': 'exact'}})
+            S.append({'op': 'argobj', 'mode': 'types', 'ctype': ctype, 'stream': 'exact',
+                      'base': {'op': 'cube', 'size': [val(0.25, 4) for _ in range(rng.choice([1, 2, 3]))], 'scalar': False,
+                               'll': [val(-4, 4) for _ in range(3)], 'stream': 'exact'}})
+            b = placed(rng, {'op': 'circle', 'r': gen_radius(rng), 'type': 'p2C0'}, 'axis')
+            if ints:
+                b['center'] = [float(rng.randint(-3, 3)) for _ in range(3)]
+                orth = [a for a in AXES if sum(p_ * q_ for p_, q_ in zip(a, b['normal'])) == 0]
+                b['xaxis'] = [float(t) * rng.choice([1, 2]) for t in rng.choice(orth)]
+                b.pop('exact', None)
+                b['stream'] = 'float'
+            S.append({'op': 'argobj', 'mode': 'types', 'ctype': ctype, 'stream': b['stream'], 'base': b})
+            S.append({'op': 'argobj', 'mode': 'types', 'ctype': ctype, 'stream': 'exact',
+                      'base': {'op': 'line', 'a': [val(-4, 4) for _ in range(3)], 'b': [val(-4, 4) for _ in range(3)],
+                               'relative': rng.random() < 0.5, 'stream': 'exact'}})
     # surfaces / volumes
     for _ in range(rep(12, 80)):
         k = rng.choice([1, 2])
@@ -545,8 +584,66 @@ def generate(rng, tier):
 # ---------------------------------------------------------------------------------------------
 # the real calls
 
+def _conv(vals, ctype):
+    if ctype == 'tuple':
+        return tuple(vals)
+    if ctype == 'ndarray':
+        return np.array(vals, dtype=float)
+    if ctype == 'intarray':
+        return np.array([int(v) for v in vals])
+    return list(vals)
+
+
+def _call_argobj(sp, s):
+    """Returns (result, [(name, object, snapshot-as-list)]) for the argument-object cases."""
+    import importlib
+    cf = importlib.import_module('splipy.curve_factory')
+    sf = importlib.import_module('splipy.surface_factory')
+    vf = importlib.import_module('splipy.volume_factory')
+    b, mode, ct = s['base'], s['mode'], s['ctype']
+    op = b['op']
+    objs = []
+
+    def mk(name, vals):
+        o = _conv(vals, ct)
+        objs.append((name, o, [float(v) for v in vals]))
+        return o
+    if op in ('square', 'cube'):
+        fac = sf.square if op == 'square' else vf.cube
+        if mode == 'same':
+            pobj = mk('size=lower_left', b['ll'])
+            return fac(size=pobj, lower_left=pobj), objs
+        ll = mk('lower_left', b['ll'])
+        if mode == 'reused':
+            fac(size=ll)                     # an earlier call that receives the same list as its size
+            return fac(b['size'][0], lower_left=ll), objs
+        size = mk('size', b['size'])
+        return fac(size=size, lower_left=ll), objs
+    if op == 'line':
+        a_, b_ = mk('a', b['a']), mk('b', b['b'])
+        return cf.line(a_, b_, relative=b['relative']), objs
+    # circle / cylinder / disc
+    if mode in ('same', 'reused'):
+        v = mk('center=normal', b['center'])
+        c_, n_ = v, v
+        if mode == 'reused':
+            vf.cube(size=v)                  # an earlier call that scales with the same list
+    else:
+        c_, n_ = mk('center', b['center']), mk('normal', b['normal'])
+    x_ = mk('xaxis', b['xaxis'])
+    if op == 'circle':
+        return cf.circle(b['r'], c_, n_, b['type'], x_), objs
+    if op == 'cylinder':
+        return sf.cylinder(b['r'], b['h'], c_, n_, x_), objs
+    if op == 'disc':
+        return sf.disc(b['r'], c_, n_, b['type'], x_), objs
+    raise KeyError(op)
+
+
 def _call(sp, s):
     import importlib
+    if s['op'] == 'argobj':
+        return _call_argobj(sp, s)[0]
     cf = importlib.import_module('splipy.curve_factory')
     sf = importlib.import_module('splipy.surface_factory')
     vf = importlib.import_module('splipy.volume_factory')
@@ -647,6 +744,8 @@ def _haxis(s):
 
 
 def model_line(s):
+    if s['op'] == 'argobj':
+        return model_line(s['base'])
     op = s['op']
     ex = s.get('exact') or {}
     if op == 'line':
@@ -715,6 +814,8 @@ def model_line(s):
 
 def compare(s, iv, mv):
     from vlib.compare import diff, Err
+    if s['op'] == 'argobj':
+        s = s['base']
     from vlib.val import is_err
     if isinstance(iv, Err) or is_err(mv) or s['op'] == 'local_x':
         return diff(iv, mv, RTOL, 1e-9)
@@ -834,6 +935,8 @@ def oracle(sp, s):
             return _oracle_raise(s, e)
         if s.get('raises'):
             return ['expected an exception for inadmissible arguments, got an object']
+        if s['op'] == 'argobj':
+            return _oracle_argobj(sp, s)
         f = _ORACLES[s['op']](sp, s, obj)
         if f and _signed_zero_affected(s):
             # atan2(+-0., -0.) = +-pi in rotate_local_x_axis while flip_and_move skips its rotation (normal ~ e_z)
@@ -844,7 +947,31 @@ def oracle(sp, s):
         return f
 
 
+def _oracle_argobj(sp, s):
+    """Shape equations of the base factory, plus: the caller's argument objects are unchanged by the call(s)
+    (length and values) and the result has the documented physical dimension."""
+    obj, objs = _call_argobj(sp, s)
+    b = s['base']
+    f = list(_ORACLES[b['op']](sp, b, obj))
+    for name, o, snap in objs:
+        now = [float(v) for v in o]
+        if len(now) != len(snap) or now != snap:
+            f.append('[argument-object-mutated] the caller\'s %s object %s was changed by the call: %s -> %s' % (
+                type(o).__name__, name, snap, now))
+    want = {'square': max(2, len(b.get('ll', []))), 'cube': 3, 'line': len(b.get('a', []))}.get(b['op'])
+    if b['op'] in ('circle', 'disc'):
+        c, n = b['center'], b['normal']
+        want = 2 if (np.allclose(n, [0, 0, 1]) and (np.allclose(c, 0) or len(c) <= 2)) else 3
+    if b['op'] == 'cylinder':
+        want = 3
+    if want is not None and obj.dimension != want:
+        f.append('[wrong-physical-dimension] %s: the result lives in %dD, documented/requested %dD' % (b['op'], obj.dimension, want))
+    return f
+
+
 def _signed_zero_affected(s):
+    if s['op'] == 'argobj':
+        return False
     """The effective normal has no xy-part, a non-zero raw azimuth (signed zeros) and is ~ e_z (flip skipped)."""
     if s['op'] == 'three':
         p = [_v3(t) for t in s['x']]
@@ -1053,7 +1180,7 @@ def o_three(sp, s, c):
 
 
 def o_square(sp, s, q):
-    size = s['size'] if len(s['size']) > 1 else s['size'] * 3
+    size = list(s['size']) + [s['size'][-1]] * (3 - len(s['size']))   # short sizes repeat their last entry
     ll = np.array(s['ll'], dtype=float)
     u = np.linspace(0, 1, 3)
     P = q(u, u)
@@ -1070,7 +1197,7 @@ def o_square(sp, s, q):
 
 
 def o_cube(sp, s, q):
-    size = s['size'] if len(s['size']) > 1 else s['size'] * 3
+    size = list(s['size']) + [s['size'][-1]] * (3 - len(s['size']))   # short sizes repeat their last entry
     ll = np.array(s['ll'], dtype=float)
     u = np.linspace(0, 1, 3)
     P = q(u, u, u)
@@ -1381,6 +1508,9 @@ def classify(s, res=None):
 
 
 def tags(s, res):
+    if s['op'] == 'argobj':
+        return ['op=argobj', 'argobj:' + s['base']['op'], 'args:' + s['ctype'],
+                {'same': 'args:same-list-object', 'reused': 'args:reused-across-calls', 'types': 'args:container-types'}[s['mode']]]
     out = ['op=' + s['op'], 'stream=' + s.get('stream', 'float')]
     if 'type' in s and s['op'] in ('circle', 'ellipse'):
         t = s['type'].lower()
